@@ -305,6 +305,67 @@ R1IV_TABLE = {
 }
 
 
+def rule_peer_controlled_panics(S, res):
+    """R1.v: no panic (assert!/panic!/unreachable!/expect on own data) whose execution is decided by a
+    condition on a message component - including its length - e.g. `assert_eq!(a.len(), b.len())`
+    in a helper that is handed a vector of the message."""
+    fg = S.fg
+    cl = mpc_closure(S)
+    all_comp = set()
+    for d in S.comp.values():
+        all_comp |= set(d.keys())
+    n = 0
+    bad = 0
+    bodies = {n_[0] for n_ in all_comp if n_[0] != "F"}
+    for bk in sorted(bodies):
+        if bk not in cl and fg.bodies[bk].owner not in {fg.bodies[k].owner for k in cl}:
+            continue
+        b = fg.bodies[bk]
+        panics = []
+        for bi, t in b.calls():
+            names = callee_names(t)
+            if not names or bi not in b.live_blocks():
+                continue
+            if names[0].startswith("core::panicking::") or names[0].startswith("std::rt::begin_panic") or names[0].endswith("::unwrap_failed") or names[0].endswith("::expect_failed"):
+                sp = t["sp"]
+                if any(m in sp for m in ("m:debug", "m:trace", "m:instrument", "m:info")):
+                    continue
+                panics.append(bi)
+        if not panics:
+            continue
+        cd = control_deps(b)
+        for pb in panics:
+            n += 1
+            # transitive controlling switches
+            ctrl = set()
+            frontier = {pb}
+            while frontier:
+                nxt = set()
+                for x in frontier:
+                    for (sw, _s) in cd.get(x, ()):
+                        if sw not in ctrl:
+                            ctrl.add(sw)
+                            nxt.add(sw)
+                frontier = nxt
+            for sw in sorted(ctrl):
+                t = b.blocks[sw]["t"]
+                if t["k"] != "switch" or t["o"]["k"] == "const":
+                    continue
+                back = fg.backward(fg.operand_nodes(bk, t["o"]), node_ok=lambda x: x[0] == bk, local=True,
+                                   edge_ok=lambda e: e.kind in ("copy", "ref", "base2field", "field2whole", "agg", "bin", "un", "cast", "shape", "discr", "lcall") or (e.kind == "call" and secmod.struct_edge(e)) or (e.kind == "call" and (e.info or {}).get("names") and e.info["names"][-1].rsplit("::", 1)[-1] in ("len", "is_empty", "eq", "ne")))
+                hit = [x for x in back if x in all_comp]
+                if hit:
+                    labs = sorted({l for x in hit for l in S.labels_of(x)})
+                    bad += 1
+                    res.bad("R1.v", "%s|panic|%s" % (b.owner.rsplit("::", 1)[-1], "/".join(labs[:2])),
+                            "a panic (assert / panic! / unreachable) is reached depending on a condition on data of message %s (value or length): a malformed message aborts the process instead of returning Err" % labs[:3],
+                            where(b, pb), key="R1.v|%s|%s" % (b.owner.rsplit("::", 1)[-1], "/".join(labs[:2])))
+                    break
+    res.count("panic_sites_in_component_bodies", n)
+    if not bad:
+        res.ok("R1.v", "engine", "", "%d panic sites in functions that handle message components: none is controlled by a condition on a component" % n)
+
+
 def _fsources(fg, bk, operand, fam):
     """Field-based sources (Context / Circuit fields) an integer operand is a plain copy of."""
     if operand["k"] == "const":
